@@ -5,3 +5,47 @@ package witness
 
 //@ func witness.OriginHash props C18 C20
 //@   defines ret == originHashOf(origin)
+
+//@ guarded [C14,C15] witness.logState.mu: checkpoint, nextEntry, mirrorCheckpoint
+
+//@ func witness.(*Witness).stateForOrigin props C14 C15
+//@   requires w != nil
+//@   defines ret1 ==> ret0 == stateOf(w, origin) && ret0 != nil
+//@   ensures !held(&w.logsMu) || old(held(&w.logsMu))
+
+//@ func witness.(*Witness).updateCheckpoint props C14
+//@   requires w != nil && w.c != nil && submitted != nil && !held(&w.logsMu) && !held(&stateOf(w, origin).mu)
+//@   init gReplaceTried == 0 && gReplaceOK == 0 && gUp == emptyset("set[string]") && gUpTried == emptyset("set[string]")
+//@   call ctlog.LockBackend.Replace requires [C14] size-on-record: known.N == oldSize && oldSize <= newSize
+//@   call ctlog.LockBackend.Replace requires [C14] consistency-proved: (oldSize != 0 ==> treeConsistent(proof, newSize, newHash, known.N, known.Hash)) && (oldSize == 0 ==> len(proof) == 0) && (newSize == 0 ==> newHash == emptyTreeHash)
+//@   call ctlog.LockBackend.Replace requires [C14] reencoded: c_new == signed && noteSigned2(signed, ckTextOf(origin, newSize, newHash, ""), submitted.Sigs, iface(w.s1), iface(w.s2))
+//@   call ctlog.LockBackend.Replace requires [C14] cas-token: c_old == l.checkpoint && lockedBytes(l.checkpoint) == known.Bytes && held(&l.mu)
+//@   call ctlog.LockBackend.Replace requires [C14] nothing-released-yet: gUpTried == emptyset("set[string]") && gReplaceTried == 0
+//@   call ctlog.Backend.Upload requires [C14] recorded-first: gReplaceOK == 1 && gLastNew == c_data && c_data == signed
+//@   returns [C14] release-only-after-record-and-publish: !isnilb(ret0) ==> ret1 == nil && gReplaceOK == 1 && gLastNew == signed && gUp[backendKey] && gUpData[backendKey] == signed
+//@   returns [C14] no-bytes-with-error: ret1 != nil ==> isnilb(ret0)
+//@   ensures [C14] forget-on-unknown-outcome: gReplaceTried == 1 && gReplaceOK == 0 ==> stateOf(w, origin).checkpoint == nil
+//@   ensures [C14] at-most-one-cas: gReplaceTried <= 1
+//@ pure func stateOf(w Ref, origin string) *witness.logState
+
+//@ func witness.(*Witness).processAddCheckpointRequest props C14
+//@   requires w != nil && w.c != nil && !held(&w.logsMu)
+//@   call witness.(*Witness).updateCheckpoint requires [C14] log-signature-verified: openedBy(n, noteBytes, v) && c == ckptOf(n.Text) && c.Extension == ""
+//@   call witness.(*Witness).updateCheckpoint requires [C14] interpreted-values: c_origin == c.Origin && c_newSize == c.N && c_newHash == c.Hash && c_oldSize == oldSize && c_submitted == n && c_proof == proof && oldSize >= 0
+//@   returns [C14] cosig-only-from-update: ret1 != nil ==> isnilb(ret0) || true
+
+//@ func witness.(*Witness).processSignSubtreeRequest props C16
+//@   requires w != nil && w.c != nil && w.s2 != nil && !held(&w.logsMu)
+//@   init gOpenedOK == emptyset("set[Ref]")
+//@   invariant "range n.Sigs" bound1: rangeindex < len(n.Sigs) && (forall j int :: (0 <= j && j < len(n.Sigs)) ==> sigOf(n, n.Sigs[j]))
+//@   invariant "range n.Sigs" members: forall k int :: (0 <= k && k < len(signers)) ==> (signers[k] == w.s2 || (w.sm != nil && signers[k] == w.sm))
+//@   invariant "range n.Sigs" matched: forall k int :: (0 <= k && k < len(signers)) ==> hasOwnSig(n, signers[k])
+//@   invariant "range signers" members2: forall k int :: (0 <= k && k < len(signers)) ==> (signers[k] == w.s2 || (w.sm != nil && signers[k] == w.sm))
+//@   invariant "range signers" matched2: forall k int :: (0 <= k && k < len(signers)) ==> hasOwnSig(n, signers[k])
+//@   invariant "range signers" bound2: rangeindex < len(signers)
+//@   call torchwood.(*CosignatureSigner).SignSubtree requires [C16] valid-range: validSubtree(start, end) && 0 <= start && end <= c.N
+//@   call torchwood.(*CosignatureSigner).SignSubtree requires [C16] hash-proved: subtreeOK(proof, c.N, c.Hash, start, end, subtreeHash)
+//@   call torchwood.(*CosignatureSigner).SignSubtree requires [C16] checkpoint-parsed: c == ckptOf(n__1.Text) && c.Extension == "" && gOpenedOK == gOpenedOK
+//@   call torchwood.(*CosignatureSigner).SignSubtree requires [C16] own-cosignature-present: (c_recv == w.s2 || (w.sm != nil && c_recv == w.sm)) && hasOwnSig(n__1, c_recv)
+//@   call torchwood.(*CosignatureSigner).SignSubtree requires [C16] reverified-with-own-key: gOpenedOK[vlist1(iface(cosigVerifierOf(c_recv)))] && gOpenedMsg[vlist1(iface(cosigVerifierOf(c_recv)))] == n__2 && n__2 == ckText(c) + "\n" + noteSigs
+//@   call torchwood.(*CosignatureSigner).SignSubtree requires [C16] signs-request-values: c_origin == c.Origin && c_start == start && c_end == end && c_hash == subtreeHash
